@@ -247,7 +247,12 @@ func runJobs(dir string, jobs []job, nw int, perOp time.Duration, onResult func(
 						w.kill()
 						b, _ := os.ReadFile(w.errPath)
 						mu.Lock()
-						finds = append(finds, finding{j, curOp, "timeout:" + hangFrame(string(b)), fmt.Sprintf("%s: no result within %v", curOp, perOp)})
+						hf := hangFrame(string(b))
+						cls := "timeout:" + hf
+						if hf == "pdfcpu/model.EqualObjects" || hf == "pdfcpu/model.equalDicts" || hf == "pdfcpu/model.equalArrays" {
+							cls = "fatal:stack-overflow-equalobjects-mixed-cycle" // the same unbounded recursion, caught before the stack cap
+						}
+						finds = append(finds, finding{j, curOp, cls, fmt.Sprintf("%s: no result within %v", curOp, perOp)})
 						mu.Unlock()
 						w = nil
 						done = true
